@@ -251,7 +251,7 @@ def date_to_str(c: Cell) -> Cell:
     return Cell(STR, c.null, date_text(c.val))
 
 
-def dt_to_str(c: Cell, *, frac=True) -> Cell:
+def dt_to_str(c: Cell, *, frac=True, digits=6) -> Cell:
     if c.ty == NULLT:
         return K.null_of(STR)
     days, sod = c.val / K.US_DAY, c.val % K.US_DAY
@@ -259,8 +259,10 @@ def dt_to_str(c: Cell, *, frac=True) -> Cell:
         date_text(days), z3.StringVal(" "), pad(sod / 3_600_000_000, 2), z3.StringVal(":"),
         pad((sod / 60_000_000) % 60, 2), z3.StringVal(":"), pad((sod / 1_000_000) % 60, 2),
     ]  # fmt: skip
-    if frac:
-        parts += [z3.StringVal("."), pad(sod % 1_000_000, 6)]
+    if frac and digits == 3:
+        parts += [z3.StringVal("."), pad((sod % 1_000_000) / 1000, 3)]
+    elif frac:
+        parts += [z3.StringVal("."), pad(sod % 1_000_000, 6)] + ([z3.StringVal("000")] if digits == 9 else [])
     return Cell(STR, c.null, z3.Concat(*parts))
 
 
